@@ -35,6 +35,7 @@ def run(ctx):
     ctx.rule(range_rule)
     ctx.rule(spacing)
     ctx.rule(constants)
+    ctx.rule(gabor_norm)
     ctx.rule(triangle)
     ctx.rule(centres)
     ctx.rule(purity)
@@ -195,6 +196,70 @@ def constants(ctx, R="R-C05-constants"):
         ctx.check(r["verdict"] == "equal", R, f, std[1],
                   "Gabor (erb=%s): sigma = %s / (half the edge spacing in rad)" % (erb, "sqrt(pi)/2" if erb else "sqrt(3/10 ln 10)"),
                   "Gabor sigma with erb=%s is %s" % (erb, S.show(std[0])[:160]))
+
+
+def gabor_norm(ctx, R="R-C05-gabor-norm"):
+    """Gaussian h(t) = C exp(-t^2 / 2 sigma^2) exp(i xi t), H(w) = C sigma sqrt(2 pi) exp(-sigma^2 (w - xi)^2 / 2):
+    unit peak gain needs log C = -1/2 log 2 pi - log sigma; unit L2 norm needs C^2 sigma sqrt(pi) = 1."""
+    prog = ctx.prog
+    c = fc.bank(prog, "GaborFilterBank")
+    SG, XI, J = S.sym("SIGMA"), S.sym("XI"), S.sym("J")
+    half = S.lift(Fraction(1, 2))
+    lpi, l2 = S.call("log", S.PI), S.call("log", S.lift(2))
+    n_ok = 0
+    for l2n in (True, False):
+        attrs, ctor, cev = fc.per_filter_attrs(prog, "GaborFilterBank", {"scale_l2_norm": l2n, "erb": False})
+        if l2n:
+            log_ct = S.sub(S.neg(S.mul(half, S.call("log", SG))), S.mul(S.lift(Fraction(1, 4)), lpi))
+        else:
+            log_ct = S.sub(S.neg(S.mul(half, S.add(l2, lpi))), S.call("log", SG))
+        log_cf = S.add(log_ct, S.add(S.call("log", SG), S.mul(half, S.add(l2, lpi))))
+        for meth in fc.RESPONSE_METHODS:
+            f = prog.own_method(c, meth)
+            ev = SymEval(prog, f, seed={"self._scale_l2_norm": l2n}, inline_props=False).run()
+            augs = [n for n in f.body_nodes() if isinstance(n, ast.AugAssign) and isinstance(n.target, ast.Subscript) and ev.reached(n)]
+            ctx.need(augs, R, "no accumulation into the result in GaborFilterBank.%s" % meth)
+            fi = S.sym(f.params[1])
+            for a in augs:
+                v = ev.eval_at(a, a.value)
+                if v.op == "call" and v.args[0] == ".conj":
+                    continue  # the mirrored sample of the impulse response
+                # read self._x[filt_idx] through to the constructor
+                sub = {}
+                for x in S.walk(v):
+                    if x.op == "call" and x.args[0] == "getitem" and x.args[2] == fi and x.args[1].op == "sym" and x.args[1].args[0] in attrs:
+                        sub[x] = attrs[x.args[1].args[0]]
+                v2 = S.subst(v, sub)
+                selfn = f.params[0]
+                sig = attrs.get(selfn + "._stds")
+                xi = attrs.get(selfn + "._centers_ang")
+                ctx.need(sig is not None and xi is not None, R, "per-filter sigma / centre not found in the Gabor constructor")
+                v2 = S.subst(v2, {sig: SG})
+                v2 = S.subst(v2, {xi: XI})
+                v2 = S.subst(v2, {S.const("1j"): J})
+                ctx.need(v2.op == "call" and v2.args[0] == "exp", R, "Gabor sample in %s is not an exponential: %s" % (meth, S.show(v2)[:100]))
+                got = v2.args[1]
+                if meth == "get_impulse_response":
+                    t = S.sym("t")
+                    want = S.add(S.add(S.neg(S.truediv(S.power(t, S.lift(2)), S.mul(S.lift(2), S.power(SG, S.lift(2))))), log_ct), S.mul(S.mul(J, XI), t))
+                    dom = {"t": [Fraction(0), Fraction(3)], "SIGMA": [Fraction(2), Fraction(5, 3)], "XI": [Fraction(1, 2)], "J": [Fraction(1)]}
+                    what = "exp(-t^2 / 2 sigma^2 + i xi t) times C, log C = %s" % ("-1/2 log sigma - 1/4 log pi (unit L2 norm)" if l2n else "-1/2 log 2 pi - log sigma (unit peak gain)")
+                else:
+                    om = S.mul(S.mul(S.add(S.truediv(S.sym("idx"), S.sym(f.params[2])), S.sym("period")), S.lift(2)), S.PI)
+                    want = S.add(S.mul(S.neg(S.truediv(S.power(SG, S.lift(2)), S.lift(2))), S.power(S.sub(XI, om), S.lift(2))), log_cf)
+                    dom = {"idx": [Fraction(0), Fraction(3)], f.params[2]: [Fraction(16)], "period": [Fraction(0), Fraction(-1)], "SIGMA": [Fraction(2), Fraction(5, 3)], "XI": [Fraction(1, 2)]}
+                    what = "exp(-sigma^2 (xi - w)^2 / 2) times C sigma sqrt(2 pi): %s" % ("log = 1/2 log 2 sigma + 1/4 log pi" if l2n else "1 (unit peak gain)")
+                r = S.compare(got, want, domain=dom, expand_logs=True)
+                n_ok += 1
+                if r["verdict"] == "equal":
+                    ctx.ok(R, f.loc(a), "Gabor %s (scale_l2_norm=%s): %s" % (meth, l2n, what))
+                elif r["verdict"] == "differ":
+                    ctx.bad(R, f, a, "Gabor %s with scale_l2_norm=%s accumulates exp(%s); the Gaussian with %s requires exp(%s) (e.g. at %s: %s vs %s)"
+                            % (meth, l2n, S.canon(got, True)[:160], "unit L2 norm" if l2n else "unit peak gain", S.canon(want, True)[:160],
+                               r.get("witness"), r["values"][0], r["values"][1]), "Gabor normalisation")
+                else:
+                    raise AnalysisError("%s: %s (scale_l2_norm=%s): %s" % (R, meth, l2n, r.get("reason")))
+    ctx.floor(R, n_ok, 6)
 
 
 def triangle(ctx, R="R-C05-triangle"):
